@@ -16,6 +16,9 @@ commits = sh("git", "-C", "/repo", "log", "--reverse", "--format=%H %s", base + 
 mapping = {}
 for line in commits:
     h, subj = line.split(" ", 1)
+    if h[:7] in os.environ.get("INTEGRATE_SKIP", "").split(","):
+        print("skipped on request:", h[:7], subj)
+        continue
     if not (subj.startswith("fix:") or subj.startswith("verif:")):
         print("skipping commit with unexpected subject:", subj)
         continue
@@ -28,6 +31,7 @@ for line in commits:
             print("already applied:", subj)
             continue
         print(out)
+        subprocess.run(["git", "-C", "/repo", "cherry-pick", "--abort"])
         raise SystemExit("cherry-pick conflict on %s %s -- resolve by hand" % (h[:7], subj))
     new = sh("git", "-C", "/repo", "rev-parse", "--short", "HEAD")
     # drop the '(cherry picked from ...)' trailer: keep messages clean
